@@ -11,3 +11,4 @@ import MJ.Props.C19
 #print axioms MJ.C19.no_panic
 #print axioms MJ.C19.structured_render_is_op_sequence
 #print axioms MJ.C19.C19_structured
+#print axioms MJ.C19.null_output_same_as_string
